@@ -246,6 +246,7 @@ def payload_sweep(m):
             out += [["s_sample_field", present[0], "data", "00" * 10], ["s_sample_field", present[0], "format", "int16"], ["s_sample_field", present[0], "volume", 1], ["s_sample_del", present[-1]]]
     elif t == "MetaModule":
         out += [["m_count", 0], ["m_count", 96], ["m_map", 95, 0xFFF0, 7], ["m_label", 0, "cutoff"]] if m.user_defined_controllers else [["m_count", 3], ["m_map", 0, 0xFFF0, 1]]
+        out += [["m_project_whole"]]
     return out
 
 
